@@ -358,7 +358,12 @@ def cas1(ctx, c):
         for conds, flat in paths(inl):
             cd = ", ".join("%s=%s" % kv for kv in conds) or "always"
             if flat and flat[0][0] == "ret" or not any(x[0] == "byte" for x in flat):
-                c.ok("%s[%s]" % (name, cd), "emits nothing", where, nontrivial=False)
+                if btype in (T.BLOCK_NAMEFILE, T.BLOCK_EOF) and conds:
+                    c.finding("%s[%s]:missing" % (name, cd), "no %s block is written when %s" % ("name-file" if btype == T.BLOCK_NAMEFILE else "end-of-file", cd[:60]),
+                              "%s returns without writing its block when %s: add_file still writes the leaders and the other blocks around it, so that file has no %s block on the tape"
+                              % (name, cd, "name-file" if btype == T.BLOCK_NAMEFILE else "end-of-file"), where)
+                else:
+                    c.ok("%s[%s]" % (name, cd), "emits nothing", where, nontrivial=False)
                 continue
             npaths += 1
             site = "%s[%s]" % (name, cd)
@@ -614,6 +619,8 @@ def cas4(ctx, c):
             return ("raw", it[1])
         if it[0] == "ret":
             return None
+        if it[0] == "rebind":
+            return ("rebind", it[1], sorted(it[2]))
         if it[0] in ("other", "let") and len(it) > 2 and isinstance(it[-1], ast.Assign) and isinstance(it[-1].targets[0], ast.Name) and not any(
                 isinstance(x, ast.Call) and isinstance(x.func, ast.Attribute) and x.func.attr in ("append", "extend", "insert", "pop", "remove", "clear") for x in ast.walk(it[-1])):
             return None     # a local computed from reads only: no bytes written
@@ -625,6 +632,11 @@ def cas4(ctx, c):
         seq = [x for x in (classify(it) for it in flat) if x is not None]
         site = "add_file[%s]" % cd
         blocks = [s_[1] for s_ in seq if s_[0] == "block"]
+        for s_ in [x for x in seq if x[0] == "rebind"]:
+            c.finding(site + ":file-altered", "the file's %s is replaced before the file is written" % ", ".join(s_[2]),
+                      "add_file replaces the %s of the file it was given (when %s) and writes the altered copy: the header on tape no longer carries the file's own value"
+                      % (", ".join(s_[2]), cd), where)
+        seq = [x for x in seq if x[0] != "rebind"]
         if any(s_[0] in ("other", "raw") for s_ in seq) or len(writers) < 3:
             c.undecided(site + ":order", "add_file's steps are not all recognised as block writers / fillers", str([s_[:3] for s_ in seq])[:160], where)
             continue
@@ -832,7 +844,10 @@ def cas5(ctx, c):
         if isinstance(n, ast.Call) and U(n.func) == "self.skip_to_sequence" and n.args:
             from ..consteval import try_fold
             sig = try_fold(n.args[0], ctx.env)
-    c.check(sig == [T.SYNC[0], T.SYNC[1], T.BLOCK_NAMEFILE], "read_file:signature", "55 3C 00", "scans for %s" % (sig,),
+    if sig is None:
+        c.undecided("read_file:signature", "signature-not-constant", "", where)
+    else:
+      c.check(sig == [T.SYNC[0], T.SYNC[1], T.BLOCK_NAMEFILE], "read_file:signature", "55 3C 00", "scans for %s" % (sig,),
             "read_file looks for the sequence %s, a name-file block starts 55 3C 00" % (sig,), where)
     want_kw = {"type": "file_type", "data_type": "data_type", "gaps": "gap_flag", "load_addr": "load_hi", "exec_addr": "exec_hi"}
     nret = 0
@@ -900,7 +915,9 @@ def cas5(ctx, c):
         for o in sub.run():
             if o.kind == "return" and isinstance(o.value, Ctor) and o.value.cls == "list" and len(o.value.args) == 2:
                 adv.add(_lin_off(o.value.args[1], "P"))
-        if isinstance(lay.get("name"), tuple) and "name" in hname:
+        if isinstance(lay.get("name"), tuple) and "name" in hname and (not adv or None in adv):
+            c.undecided("%s:advance" % hname[5:], "advance-not-affine", str(sorted(adv, key=str)), repo.loc(rf, hnode))
+        elif isinstance(lay.get("name"), tuple) and "name" in hname:
             c.check(adv == {lay["name"][1]}, "%s:advance" % hname[5:], "advances %d" % lay["name"][1], "advances %s, name field is %d bytes" % (sorted(adv, key=str), lay["name"][1]),
                     "%s advances the pointer by %s but the name field is %d bytes" % (hname[5:], sorted(adv, key=str), lay["name"][1]), repo.loc(rf, hnode))
             loops = [n for n in ast.walk(hnode) if isinstance(n, ast.For) and isinstance(n.iter, ast.Call) and U(n.iter.func) == "range"]
@@ -914,7 +931,12 @@ def cas5(ctx, c):
     # (d) block reader
     whereb = repo.loc(rb, rb.node)
     try:
-        it = Interp(rb.node, sub_bases=("self.buffer",), call_syms={"self.skip_to_sequence": "F"})
+        cenv = dict(ctx.env)
+        for k_, v_ in list(ctx.env.items()):
+            if isinstance(k_, str) and k_.startswith(CLS + "."):
+                cenv["self." + k_[len(CLS) + 1:]] = v_
+                cenv["cls." + k_[len(CLS) + 1:]] = v_
+        it = Interp(rb.node, consts=cenv, sub_bases=("self.buffer",), call_syms={"self.skip_to_sequence": "F"})
         resb = it.run()
     except PathCap as e:
         c.undecided("read_blocks", "path-cap", str(e), whereb)
@@ -924,7 +946,10 @@ def cas5(ctx, c):
         if isinstance(n, ast.Call) and U(n.func) == "self.skip_to_sequence" and n.args:
             from ..consteval import try_fold
             sigb = try_fold(n.args[0], ctx.env)
-    c.check(sigb == [T.SYNC[0], T.SYNC[1]], "read_blocks:signature", "55 3C", "scans for %s" % (sigb,), "read_blocks looks for %s, blocks start 55 3C" % (sigb,), whereb)
+    if sigb is None:
+        c.undecided("read_blocks:signature", "signature-not-constant", "", whereb)
+    else:
+      c.check(sigb == [T.SYNC[0], T.SYNC[1]], "read_blocks:signature", "55 3C", "scans for %s" % (sigb,), "read_blocks looks for %s, blocks start 55 3C" % (sigb,), whereb)
     seen_arms = set()
     for o in resb:
         ta = o.path.true_atoms()
@@ -1007,6 +1032,21 @@ def cas5b(ctx, c):
                 for n in ast.walk(f.node):
                     if isinstance(n, ast.Assign) and isinstance(n.value, ast.Call) and U(n.value.func) == "self.skip_to_sequence":
                         got.add(U(n.targets[0]))
+                # an ordering test on the result: evaluated for the sentinel, position 0 and a later position
+                from ..consteval import fold as _fs, NotConst as _Nsx
+                for n in ast.walk(f.node):
+                    if isinstance(n, ast.If) and isinstance(n.test, ast.Compare) and len(n.test.ops) == 1 and isinstance(n.test.ops[0], (ast.Lt, ast.LtE, ast.Gt, ast.GtE)) \
+                            and U(n.test.left) in got and n.body and isinstance(n.body[-1], (ast.Return, ast.Raise)):
+                        try:
+                            tbl = [bool(_fs(n.test, dict(ctx.env, **{U(n.test.left): v_}))) for v_ in (sentinel, 0, 1, 300)]
+                        except _Nsx:
+                            continue
+                        if tbl != [True, False, False, False]:
+                            c.finding("%s:not-found-test" % f.name, "`%s` also holds for a sequence found at position %s" % (U(n.test), [0, 1, 300][tbl[1:].index(True)] if True in tbl[1:] else "?"),
+                                      "%s.%s gives up when `%s`: skip_to_sequence returns %d only when nothing is found, and a block whose sync bytes start at offset 0 of the buffer "
+                                      "(a tape image without a leader) is a valid find" % (CLS, f.name, U(n.test), sentinel), repo.loc(f, n))
+                        else:
+                            c.ok("%s:not-found-test" % f.name, "gives up exactly for the not-found value", repo.loc(f, n))
                 for n in ast.walk(f.node):
                     if isinstance(n, ast.Compare) and len(n.ops) == 1 and isinstance(n.ops[0], (ast.Eq, ast.NotEq)) and U(n.left) in got:
                         k = try_fold(n.comparators[0], ctx.env)
@@ -1046,6 +1086,17 @@ def cas5b(ctx, c):
                       "between blocks (as real recordings have) cannot be read", repo.loc(rbk, calls_all[0]))
         elif loops and calls_in:
             c.ok("read_blocks:sync", "each block is located by its own sync search", repo.loc(rbk, calls_in[0]))
+    # a data block never ends the reading of a file: only the EOF block does (a tape may carry short data blocks anywhere)
+    if rbk is not None:
+        for n in ast.walk(rbk.node):
+            if isinstance(n, ast.If) and re.search(r"block_type|type", U(n.test)) and re.search(r"'01'|== 1\b|== 0x01|BLOCK_DATA|DATA", U(n.test)):
+                rets = [x for x in ast.walk(ast.Module(body=n.body, type_ignores=[])) if isinstance(x, ast.Return)]
+                if rets:
+                    c.finding("read_blocks:data-block-return", "reading stops after a data block (%s)" % U(next((p_.test for p_ in ast.walk(n) if isinstance(p_, ast.If) and any(r_ is y for r_ in rets for y in ast.walk(p_)) and p_ is not n), n.test))[:50],
+                              "read_blocks returns from inside the data-block branch: the blocks that follow (and the EOF block) are not consumed, so the rest of the file is lost and the "
+                              "search for the next file starts in the middle of this one", repo.loc(rbk, rets[0]))
+                else:
+                    c.ok("read_blocks:data-block-return", "only the EOF block ends a file", repo.loc(rbk, n))
     # the extension given to a file read from tape follows its type: machine language (2) is BIN
     rf = C.methods.get("read_file")
     if rf is not None:
